@@ -10,6 +10,7 @@ checks = {
  "C01": ("model_checking", T, "provider staking / opt-in / key / power-shaping histories x epochs x late channel opening x delayed and batched relay x consumer blocks on the real provider and consumer apps (five units incl. a second Top-N consumer and a small-alphabet unit that reaches several packets in one consumer block); a ledger monitor remembers every set the provider decided; after every consumer block the stored set and the consensus-engine set must equal the set of the last packet received (launch-time set if none), packets must reproduce the provider's stored set and leave in order", "§5 C01"),
  "C08": ("model_checking", T, "reports of downtime / double-signing from two consumers for current, replaced, never-assigned and unknown keys, forged update ids, validator state changes (jail, opt-out, unbonding, stop), acks and VSC deliveries in five units (full, ack loop, throttle, retry, epoch 3); the provider's decision is recomputed from the pre-state as a decision table (who is jailed, amount, jail time, ack bytes, slash acks recorded / carried / cleared, nobody else touched) and the consumer's one-outstanding-report rule is judged on every step", "§5 C08"),
  "C09": ("model_checking", T, "same search as C08: per delivery the meter rule (handled only with meter >= 0, deduction = effective power, bounce changes nothing), per begin-block the allowance / cap / one-replenishment-per-period rules, per trace the window bound, and on the consumer the send discipline (nothing while in flight or bounced-and-not-yet-due, retry only after the delay, head of queue only, handled packet leaves the queue exactly once)", "§5 C09"),
+ "C11": ("model_checking", T, "two rich launched consumers with packets in flight; every way of stopping (owner message, timeout of one or several in-flight packets, injected error acknowledgement, send failure on a closed channel), repeated and for both consumers, interleaved with validator-set changes and waits of 2 min / U-5 s / U; from the stop on the stored set, the pending queue and the channel's send sequence must not move and the key assignment / client binding must stay usable until the first block at or past stop+U, then every store entry owned by the consumer except descriptive records must be gone and the channel closed", "§5 C11"),
  "C12": ("model_checking", T, "monitors on the C01 search (id grows by exactly one per epoch block, every id used maps to height+1 of the block that produced it, packet ids leave in increasing order, every consumer height maps to the id of the last update received before it) and on the C08 search (a report carries the id of its infraction height; ids never issued are error-acknowledged and change nothing)", "§5 C12"),
  "C02": ("model_checking", T, "26 consumer power-shaping configurations live side by side on one provider (two families x 6 (M, MaxValidators) settings + an epoch-3 unit); every staking / opt-in / key / jail history up to the bound; after every epoch and at every launch each consumer set is compared with a must/may recomputation from the staking store", "§5 C02"),
  "C03": ("model_checking", T, "ComputeMinPowerInTopN over every power multiset x N in 50..100 against a brute-force exact-integer reference, plus the eligibility search: stored threshold, automatic opt-in, opt-out acceptance and provenance of every opt-in record after every event", "§5 C03"),
